@@ -42,6 +42,15 @@ def main():
         tb = traceback.format_exc()
         ctx.violation('correspondence-broken', 'check crashed: ' + tb[-1500:],
                       {'component': 'harness', 'traceback': tb})
+    terr = [e for e in b['errors'] if e.startswith('translator ')]
+    if terr and b['model_ok']:
+        # the translator failed closed: a table has a shape it does not handle, or a function body the hand-written model was
+        # written against has changed.  The model data in Gen/*.v is then NOT what the code says now, so the theorems are not
+        # about this code: unless the search above found a concrete failing input (which takes precedence as the replay), the
+        # property is no longer shown to hold
+        ctx.violation('correspondence-broken', 'the translator could not regenerate the model from the current source (the tie is broken: '
+                      'the theorems of Props/%s.v are about the previous source): %s' % (a.prop, '; '.join(terr)[:1000]),
+                      {'component': 'translator harness/srcdata.py', 'errors': terr, 'theorem_file': 'coq/theories/Props/%s.v' % a.prop})
     if not b['model_ok']:
         ctx.violation('correspondence-broken', 'the model could not be regenerated/built from the source: '
                       + '; '.join(b['errors'])[:800], {'component': 'build', 'errors': b['errors']})
